@@ -133,13 +133,34 @@ def hx(b):
     return None if b is None else bytes(b).hex()
 
 
+def replay_cases(obj):
+    """the station-side cases named anywhere in a replay file written by an earlier run"""
+    out = []
+
+    def walk(o):
+        if isinstance(o, dict):
+            if o.get("kind") in ("send", "announce", "clear", "ingest") and ("reg" in o or "via" in o or "secret" in o):
+                c = dict(o)
+                if c["kind"] == "ingest":
+                    c.setdefault("subnets", SUBNETS)
+                out.append(c)
+                return
+            for v in o.values():
+                walk(v)
+        elif isinstance(o, list):
+            for v in o:
+                walk(v)
+    walk(obj or {})
+    return out
+
+
 def gen_cases(ctx):
     rng = ctx.rng
     quick = ctx.tier == "quick"
     v4, mapped, v6, bad = ip_pools(rng)
     good = v4 + mapped + v6
     cases = [{"kind": "meta"}]
-    for c in (ctx.replay or {}).get("cases", []):
+    for c in replay_cases(ctx.replay):
         cases.append(c)
     cases.append({"kind": "clear", "via": "clearDetector"})
     cases.append({"kind": "clear", "via": "Cleanup"})
@@ -156,6 +177,16 @@ def gen_cases(ctx):
             cases.append({"kind": "send", "reg": reg(ph, ad), "dur": str(rng.choice(durs)), "op": rng.choice([1, 2, 1, 2, 0, 3])})
     for ad in good + bad + [None]:
         cases.append({"kind": "send", "reg": reg(rng.choice(good), ad), "dur": str(rng.choice(durs)), "op": rng.choice([1, 2])})
+    # IPv6 texts: every pattern of zero / non-zero 16-bit groups (where "::" goes), as phantom and as client
+    pats = list(range(256))
+    if quick:
+        pats = rng.sample(pats, 48)
+    for p in pats:
+        b = b"".join((bytes(2) if not (p >> g) & 1 else bytes([rng.choice([0, 1, 255]), rng.randrange(1, 256)])) for g in range(8))
+        if b[:12] == bytes(10) + b"\xff\xff":
+            continue
+        cases.append({"kind": "send", "reg": reg(b, rng.choice(v6)), "dur": str(UNUSED_NS), "op": 1})
+        cases.append({"kind": "send", "reg": reg(rng.choice(v6), b), "dur": str(ACTIVE_NS), "op": 2})
     for _ in range(40 if quick else 1500):
         cases.append({"kind": "send", "reg": reg(rng.choice(good + bad + [None]), rng.choice(good + bad + [None])),
                       "dur": str(rng.choice(durs + [rng.getrandbits(64)])), "op": rng.randrange(4)})
@@ -290,6 +321,12 @@ def ip_value(h):
     return None
 
 
+def reg_acceptable(r):
+    """the property's own conditions on a registration (IP literals, v4 phantom with v4 client, TCP/UDP)"""
+    p, a = ip_value(r["phantom"]), ip_value(r["addr"])
+    return p is not None and a is not None and not (p[0] == 4 and a[0] != 4) and r["proto"] in (1, 2)
+
+
 def reg_class(r):
     def c(h):
         if h is None:
@@ -370,7 +407,21 @@ def run(ctx):
             shutil.rmtree(rsdir, ignore_errors=True)
 
 
+def check_call_site(ctx):
+    """source-shape check: the station's main() still asks for the clean-up at shutdown (main cannot be run here)"""
+    import glob
+    import re
+    d = os.path.join(lib.REPO, "cmd", "application")
+    srcs = [f for f in glob.glob(os.path.join(d, "*.go")) if not f.endswith("_test.go")]
+    txt = "\n".join(re.sub(r"//[^\n]*", "", open(f).read()) for f in srcs)
+    ctx.count(("call-site",), kind="call-site")
+    if not re.search(r"\.Cleanup\(\)", txt):
+        ctx.fail("clear:not-requested-at-shutdown", "cmd/application no longer calls RegistrationManager.Cleanup(): a station that shuts down "
+                 "leaves its sessions in the detector", {"files": [os.path.basename(f) for f in srcs]})
+
+
 def _run(ctx, binary):
+    check_call_site(ctx)
     cases = gen_cases(ctx)
     rc, out, res = ctx.go_inpkg(".", "pkg/station/lib", {"zz_verif_c10_driver_test.go": "c10/detector_driver_test.go"},
                                 "^TestVerifC10Detector$", cases, timeout=900)
@@ -431,15 +482,15 @@ def _run(ctx, binary):
             add("(CSend %s %s %s %s)" % (g_reg(c["reg"]), gN(int(c["dur"])), gN(c["op"]), g_msg(msgs[0], d)), ci, "send")
             cv = d["conv"]
             ctx.count(("send", c["reg"], c["dur"], c["op"]), kind="send/" + ("accepted" if cv["ok"] else cv["err"]))
-            if cv["ok"] and c["op"] in (1, 2):   # whatever is accepted must be faithful
+            # an acceptable registration must be accepted, and whatever is accepted must be faithful
+            if (cv["ok"] or reg_acceptable(c["reg"])) and c["op"] in (1, 2):
                 check_announcement(ctx, "sendToDetector", c["reg"], msgs[0], d, c["op"], int(c["dur"]), c)
             continue
         if kind == "announce":
             if len(msgs) != 2:
                 ctx.broken("correspondence", "register+markActive published %d messages" % len(msgs), c)
                 continue
-            okc = ip_value(c["reg"]["phantom"]) is not None and ip_value(c["reg"]["addr"]) is not None and \
-                not (ip_value(c["reg"]["phantom"])[0] == 4 and ip_value(c["reg"]["addr"])[0] != 4) and c["reg"]["proto"] in (1, 2)
+            okc = reg_acceptable(c["reg"])
             for mi, (upd, want_op, want_ns) in enumerate([(False, 1, UNUSED_NS), (True, 2, ACTIVE_NS)]):
                 d = det_of[(ci, mi)]
                 add("(CAnnounce %s %s %s)" % (g_reg(c["reg"]), gbool(upd), g_msg(msgs[mi], d)), ci, "announce")
@@ -448,6 +499,9 @@ def _run(ctx, binary):
                 ctx.count(("announce", c["reg"], upd), kind="announce/" + ("accepted" if d["conv"]["ok"] else d["conv"]["err"]))
             continue
         if kind == "clear":
+            if len(msgs) == 0:
+                ctx.fail("clear:not-sent", "%s published nothing on the detector channel" % c["via"], c)
+                continue
             if len(msgs) != 1:
                 ctx.broken("correspondence", "%s published %d messages" % (c["via"], len(msgs)), c)
                 continue
@@ -473,15 +527,23 @@ def _run(ctx, binary):
                 gbool(c["en4"]), gbool(c["en6"]), w, g_der(r.get("derived4")), g_der(r.get("derived6")), glist(regs, g_reg)),
                 ci, "ingest")
             ctx.count(("ingest", json.dumps(c, sort_keys=True)), kind="ingest/%d-regs" % len(regs))
-            if len(msgs) != 2 * len(regs):
-                ctx.broken("correspondence", "%d registrations gave %d announcements" % (len(regs), len(msgs)), c)
+            direct = []
+            for v6, key in ((False, "direct4"), (True, "direct6")):
+                dr = r.get(key)
+                add("(CNewReg %s (Build_sel %s %s) %s %s)" % (w, g_der(r.get("derived4")), g_der(r.get("derived6")), gbool(v6),
+                                                           gopt(dr, g_reg)), ci, "newreg")
+                ctx.count(("newreg", json.dumps(c, sort_keys=True), v6), kind="newreg/" + ("ok" if dr else "rejected"))
+                if dr:
+                    direct.append(dr)
+            if len(msgs) != 2 * (len(regs) + len(direct)):
+                ctx.broken("correspondence", "%d registrations gave %d announcements" % (len(regs) + len(direct), len(msgs)), c)
                 continue
-            for ri, rg in enumerate(regs):
+            for ri, rg in enumerate(regs + direct):
                 for k, (upd, want_op, want_ns) in enumerate([(False, 1, UNUSED_NS), (True, 2, ACTIVE_NS)]):
                     mi = 2 * ri + k
                     d = det_of[(ci, mi)]
                     add("(CAnnounce %s %s %s)" % (g_reg(rg), gbool(upd), g_msg(msgs[mi], d)), ci, "ingest-announce")
-                    ok = check_announcement(ctx, "ingest", rg, msgs[mi], d, want_op, want_ns,
+                    ok = check_announcement(ctx, "ingest" if ri < len(regs) else "NewRegistrationC2SWrapper", rg, msgs[mi], d, want_op, want_ns,
                                             {"case": {k2: v for k2, v in c.items() if k2 != "subnets"}, "registration": rg, "message": msgs[mi]})
                     ctx.count(("ingest-announce", rg, upd), kind="ingest-announce/" + ("ok" if ok else "bad"))
             continue
@@ -500,9 +562,12 @@ def _run(ctx, binary):
         ctx.sample({"case": c, "result": res[ing[0]], "detector": det_of.get((ing[0], 0))})
     ctx.require_kinds(["meta", "send/accepted", "send/InvalidPhantom", "send/InvalidClient", "send/MixedV4V6Error",
                        "send/UnrecognizedProto", "announce/accepted", "clear/acted-on", "ingest/0-regs", "ingest/1-regs",
-                       "ingest/2-regs", "ingest-announce/ok", "detect/ok/added", "detect/InvalidPhantom/nothing",
+                       "ingest/2-regs", "ingest-announce/ok", "newreg/ok", "newreg/rejected", "detect/ok/added", "detect/InvalidPhantom/nothing",
                        "detect/InvalidClient/nothing", "detect/MixedV4V6Error/nothing", "detect/UnrecognizedProto/cleared"]
                       if not ctx.known else ["meta", "send/accepted", "ingest/2-regs", "detect/ok/added"])
+    if ctx.failures or ctx.brokens:
+        # outcome classes are only meaningful as a generator self-test when nothing else is wrong
+        ctx.brokens[:] = [b for b in ctx.brokens if b["kind"] != "generator-selftest"]
     mm = ctx.coq_mismatches("c10", HEADER, terms, "chk", shard=400, need_vo=["C10/Run.vo"])
     if mm:
         ctx.cov["mismatches"] += len(mm)
